@@ -42,6 +42,9 @@ Definition with_base (lf : lfile) (b0 : bytes) : lfile := MkLF b0 (lf_mounts lf)
 
 (* successful rename: content kept under the new name, exactly the children retargeted,
    nothing else in the layers directory changed *)
+(* a temporary file of a layerconfig left by an interrupted earlier run (consumed by a rewrite) *)
+Definition is_lc_tmp (p : bytes) : bool := beq (pathbase p) (D_LayerconfigFile ++ tmp_suffix).
+
 Definition rename_exact (c : cfgT) (f f' : fsT) (a n : bytes) : bool :=
   let pa := layer_path c a in let pn := layer_path c n in
   let cfa := pathjoin [pa; D_LayerconfigFile] in let cfn := pathjoin [pn; D_LayerconfigFile] in
@@ -49,7 +52,7 @@ Definition rename_exact (c : cfgT) (f f' : fsT) (a n : bytes) : bool :=
   (* nothing is left under the old name *)
   negb (existsb (fun e => at_or_under pa (fst e)) f')
   (* every entry of the old tree other than its layerconfig is identical under the new name *)
-  && forallb (fun e => if at_or_under pa (fst e) && negb (beq (fst e) cfa)
+  && forallb (fun e => if at_or_under pa (fst e) && negb (beq (fst e) cfa) && negb (is_lc_tmp (fst e))
                        then opt_beq node_beq (fs_get f' (pn ++ rel_suffix pa (fst e))) (Some (snd e))
                        else true) f
   (* nothing new appeared under the new name *)
@@ -69,7 +72,7 @@ Definition rename_exact (c : cfgT) (f f' : fsT) (a n : bytes) : bool :=
   (* everything else under the layers directory is untouched *)
   && forallb (fun e =>
        if at_or_under (c_layers c) (fst e) && negb (at_or_under pa (fst e))
-          && negb (existsb (fun l => beq (fst e) (layerconfig_path l)) m)
+          && negb (existsb (fun l => beq (fst e) (layerconfig_path l)) m) && negb (is_lc_tmp (fst e))
        then opt_beq node_beq (fs_get f' (fst e)) (Some (snd e)) else true) f
   && forallb (fun e =>
        if at_or_under (c_layers c) (fst e) && negb (at_or_under pn (fst e))
